@@ -253,6 +253,41 @@ func owners() []ownerDef {
 			parallel.MapStream[int, int](ctorCtx(f), ps[1], 2, 2, s.cbInt(0, f)),
 			ps[2]), wOne)
 	}})
+	// Inner streams that DEPEND on the outer stream's source: each run handed out by Runs is wrapped
+	// and flattened again. Closing mid-run is only correct if Flatten closes the current inner stream
+	// (which stops and waits for its background reader) before the outer one.
+	add(ownerDef{Name: "Flatten(Map(Runs(src),run->run))", Family: "dependent-inner", Build: func(s *scen, n int, f fault) built {
+		return wrap(stream.Flatten(stream.Map(stream.Runs[int](s.one(n, f), same2),
+			func(_ context.Context, run stream.Stream[int]) (stream.Stream[int], error) { return run, nil })), wOne)
+	}})
+	for _, sz := range []int{1, 3} {
+		sz := sz
+		add(ownerDef{Name: fmt.Sprintf("Flatten(Map(Runs(src),run->Batch[%d](run)))", sz), Family: "dependent-inner", Conc: true, Ns: []int{0, 1, 2, 3, 5}, Build: func(s *scen, n int, f fault) built {
+			return wrap(stream.Flatten(stream.Map(stream.Runs[int](s.one(n, f), same2),
+				func(_ context.Context, run stream.Stream[int]) (stream.Stream[[]int], error) {
+					return stream.Batch(run, batchWait, sz), nil
+				})), wLen)
+		}})
+	}
+	add(ownerDef{Name: "Flatten(Map(Runs(src),run->parallel.MapStream(run)))", Family: "dependent-inner", Conc: true, Ns: []int{0, 1, 2, 3, 5}, Cb: true, Build: func(s *scen, n int, f fault) built {
+		cb := s.cbInt(0, f)
+		return wrap(stream.Flatten(stream.Map(stream.Runs[int](s.one(n, f), same2),
+			func(_ context.Context, run stream.Stream[int]) (stream.Stream[int], error) {
+				return parallel.MapStream(context.Background(), run, 2, 2, cb), nil
+			})), wOne)
+	}})
+	add(ownerDef{Name: "Flatten(Map(Runs(src),run->Merge[run]))", Family: "dependent-inner", Conc: true, Ns: []int{0, 1, 2, 3, 5}, Build: func(s *scen, n int, f fault) built {
+		return wrap(stream.Flatten(stream.Map(stream.Runs[int](s.one(n, f), same2),
+			func(_ context.Context, run stream.Stream[int]) (stream.Stream[int], error) {
+				return stream.Merge(run), nil
+			})), wOne)
+	}})
+	add(ownerDef{Name: "Flatten(Map(Runs(src),run->pipe-forwarder(run)))", Family: "dependent-inner", Conc: true, Ns: []int{0, 1, 2, 3, 5}, Build: func(s *scen, n int, f fault) built {
+		return wrap(stream.Flatten(stream.Map(stream.Runs[int](s.one(n, f), same2),
+			func(_ context.Context, run stream.Stream[int]) (stream.Stream[int], error) {
+				return forward(run), nil
+			})), wOne)
+	}})
 	// reducers that own a goroutine-backed stream (the reducer's return is the moment of truth)
 	add(ownerDef{Red: true, Name: "Collect(Batch[2])", Family: "Batch", Conc: true, Build: func(s *scen, n int, f fault) built {
 		st := stream.Batch[int](s.one(n, f), batchWait, 2)
@@ -367,6 +402,34 @@ func stages() []stageDef {
 				return p, nil
 			}))
 		}},
+		{Name: "Join[in,y]", Apply: func(s *scen, in stream.Stream[int], idx int, f fault) stream.Stream[int] {
+			b := s.src(fmt.Sprintf("join%d.after", idx), 130+idx*20, 2, -1, false)
+			return stream.Join[int](in, b)
+		}},
+		{Name: "Flatten[outer:[in,y]]", Apply: func(s *scen, in stream.Stream[int], idx int, f fault) stream.Stream[int] {
+			// `in` is handed out by a Flatten source. If Flatten never pulls it, it still belongs to
+			// the caller, who closes it after the outermost Close.
+			inObt, yObt := new(atomic.Bool), new(atomic.Bool)
+			items := make([]stream.Stream[int], 2)
+			outer := addProbe[stream.Stream[int]](s, fmt.Sprintf("flat%d.outer", idx), items, -1, false, nil)
+			its := []int{140 + idx*20, 141 + idx*20}
+			s.ids = append(s.ids, its...)
+			items[0] = in
+			items[1] = addProbe(s, fmt.Sprintf("flat%d.y", idx), its, -1, false, yObt)
+			outer.OnDeliver = func(i int) {
+				if i == 0 {
+					inObt.Store(true)
+				} else {
+					yObt.Store(true)
+				}
+			}
+			s.cleanup = append(s.cleanup, func() {
+				if !inObt.Load() {
+					in.Close()
+				}
+			})
+			return stream.Flatten[int](outer)
+		}},
 		// goroutine-backed stages
 		{Name: "FlattenSlices(Batch[2])", Conc: true, Apply: func(s *scen, in stream.Stream[int], idx int, f fault) stream.Stream[int] {
 			return stream.FlattenSlices(stream.Batch(in, batchWait, 2))
@@ -391,18 +454,28 @@ type pspec struct {
 	Term   string
 	N      int
 	Fault  fault
+	// Hand on after use: after stage Pre-1 has been built (Pre == 0: never) the harness itself reads
+	// PreK outputs from it (PreK < 0: until End / an error) and only then passes it on.
+	Pre  int
+	PreK int
 }
 
 func (p pspec) name(st []stageDef) string {
 	s := "src"
-	for _, i := range p.Stages {
+	for n, i := range p.Stages {
 		s += " | " + st[i].Name
+		if p.Pre == n+1 {
+			if p.PreK < 0 {
+				s += " | <read to End, then hand on>"
+			} else {
+				s += fmt.Sprintf(" | <read %d, then hand on>", p.PreK)
+			}
+		}
 	}
 	return s + " | " + p.Term
 }
 
-func drawPipeline(rnd *vkit.Rand, st []stageDef, conc bool, maxN int) pspec {
-	var ps pspec
+func drawPipeline(rnd *vkit.Rand, st []stageDef, conc bool, maxN int) (ps pspec) {
 	k := rnd.Range(2, 3)
 	for {
 		ps.Stages = ps.Stages[:0]
@@ -422,6 +495,16 @@ func drawPipeline(rnd *vkit.Rand, st []stageDef, conc bool, maxN int) pspec {
 	}
 	ps.Term = vkit.Pick(rnd, terminals)
 	ps.N = rnd.Intn(maxN + 1)
+	pre, preK := 0, 0
+	if rnd.Bool(0.3) {
+		pre, preK = rnd.Range(1, k-1), rnd.Range(-1, ps.N+2)
+	}
+	defer func() {
+		// never pre-read from sources that park at their end (the harness would wait for ever)
+		if ps.Fault.Kind != fBlock && preK != 0 {
+			ps.Pre, ps.PreK = pre, preK
+		}
+	}()
 	var cbStages []int
 	for i, j := range ps.Stages {
 		if st[j].Cb {
@@ -458,6 +541,13 @@ func buildPipeline(s *scen, st []stageDef, ps pspec) built {
 	var cur stream.Stream[int] = s.one(ps.N, ps.Fault)
 	for i, j := range ps.Stages {
 		cur = st[j].Apply(s, cur, i, ps.Fault)
+		if ps.Pre == i+1 {
+			for k := 0; ps.PreK < 0 || k < ps.PreK; k++ {
+				if _, err := cur.Next(context.Background()); err != nil {
+					break
+				}
+			}
+		}
 	}
 	final := cur
 	switch ps.Term {
@@ -483,4 +573,45 @@ func buildPipeline(s *scen, st []stageDef, ps pspec) built {
 		return reducer(func(ctx context.Context) error { _, err := xrand.RSampleStream(ctx, rr, final, 2); return err })
 	}
 	panic("unknown terminal " + ps.Term)
+}
+
+// forward is a user-written combinator: a goroutine copies `in` into a stream.Pipe; Close stops the
+// goroutine, waits for it, and the goroutine closes `in` (the same discipline as the library's own
+// background owners).
+type forwarder struct {
+	recv   stream.Stream[int]
+	cancel context.CancelFunc
+	done   chan struct{}
+}
+
+func forward(in stream.Stream[int]) stream.Stream[int] {
+	sender, recv := stream.Pipe[int](0)
+	ctx, cancel := context.WithCancel(context.Background())
+	f := &forwarder{recv: recv, cancel: cancel, done: make(chan struct{})}
+	go func() {
+		defer close(f.done)
+		defer in.Close()
+		for {
+			x, err := in.Next(ctx)
+			if err == stream.End {
+				sender.Close(nil)
+				return
+			} else if err != nil {
+				sender.Close(err)
+				return
+			}
+			if sender.Send(ctx, x) != nil {
+				sender.Close(nil)
+				return
+			}
+		}
+	}()
+	return f
+}
+
+func (f *forwarder) Next(ctx context.Context) (int, error) { return f.recv.Next(ctx) }
+func (f *forwarder) Close() {
+	f.recv.Close()
+	f.cancel()
+	<-f.done
 }
